@@ -448,6 +448,7 @@ def cookie_handshake_case():
                       ('stored cookie, context with a hyphen', b'session-bus 3 feedbeef', b'0ddc00c1e'), ('stored cookie, context with dots', b'org.example.ctx 3 feedbeef', b'0ddc00c1e'),
                       ('stored cookie, context with a plus sign', b'ctx+1 3 feedbeef', b'0ddc00c1e'),
                       ('no such keyring', b'no_such_context 12 feedbeef', None), ('two tokens only', b'org_freedesktop_general 12', None),
+                      ('no keyring directory, under a home directory with a non-ASCII name', b'org_freedesktop_general 12 feedbeef', None),
                       ('empty challenge', b'', None)]
         # the keyring directory may be searchable by others (the specification forbids only reading and writing by them)
         runs = [(0o700, c) for c in challenges] + [(mode, challenges[0]) for mode in (0o711, 0o710, 0o701, 0o500)]
@@ -458,6 +459,8 @@ def cookie_handshake_case():
             for unix in (False, True):
                 ca, p = make_client(unix)
                 ca.cookie_dir = tmp
+                if 'non-ASCII' in what:
+                    ca.cookie_dir = os.path.join(tmp, 'cl\u00e9-r\u00e9pertoire', '.dbus-keyrings')
                 script = [b'REJECTED DBUS_COOKIE_SHA1 ANONYMOUS']
                 rounds = 0
                 try:
